@@ -43,6 +43,11 @@ def mc_calendar(res, tier, seed, vec_path):
     info = run_mc("MC_Calendar", consts, workers=C.NCPU, vec_out=vec_path, timeout=3000)
     info["years_walked"] = len(years)
     res.add_mc(info)
+    # the algorithm layer of the calendar (AlgoCal.tla: the code's division cascade from 2000-03-01, the two year formulas, week day,
+    # year day) is part of Inv above (AlgoCalOK); the cascade without its clamps must NOT refine the axioms (February 29th is the last
+    # day of a 4-year block, and in year 0 of the cycle also of the 400-year block)
+    res.notes.setdefault("witnesses", []).append(C.expect_violated("MC_Calendar", dict(Years="{0, 4}", EmitVec="FALSE", Cycles="{4}", Secs="{0}", Mod=1, Rem=0), "W_NoClamp"))
+    res.notes["algorithm_layer_calendar"] = "AlgoCal.tla (from_timespec cascade, days_since_unix_epoch, week_day, year_day, floor fix-ups) = axiomatic calendar on every walked day x 5 year bases"
     if tier == "thorough":
         res.notes["apalache_unbounded_lemmas"] = C.run_apalache("Apa_Calendar", "Lemmas")
 
